@@ -37,6 +37,8 @@ pub enum Policy {
     /// Never lets one write cross a multiple of p bytes of the output
     /// (page / frame / block oriented writers).
     Paged(usize),
+    /// k consecutive Interrupted results before every accepted call.
+    InterruptBurst(usize),
 }
 
 #[derive(Debug)]
@@ -53,6 +55,7 @@ pub struct ScriptSink {
     /// builder only calls `write`).
     pub vectored_calls: usize,
     interrupt_toggle: bool,
+    burst: usize,
 }
 
 impl ScriptSink {
@@ -66,6 +69,7 @@ impl ScriptSink {
             flushed_upto: 0,
             vectored_calls: 0,
             interrupt_toggle: false,
+            burst: 0,
         }
     }
 
@@ -98,6 +102,14 @@ impl ScriptSink {
                     let room = p - (self.data.len() % p);
                     if buf.len() > room {
                         ans = Ans::Short(room);
+                    }
+                }
+                Policy::InterruptBurst(k) => {
+                    if self.burst < k {
+                        self.burst += 1;
+                        ans = Ans::Interrupted;
+                    } else {
+                        self.burst = 0;
                     }
                 }
                 Policy::InterruptEach | Policy::CapInterrupt(_) => {
